@@ -195,6 +195,14 @@ Example C18_round_trip_blanks_instance :
   = Ok (mkSpec (Some [97;100;97;112]) RAnchored [65;67;71;84;78;78;65;67] [(KIndels, VInt 0); (KMaxErrors, VDec 15 2)] TFront false).
 Proof. split; [exact ex_padded_wf | exact ex_padded_round_trip]. Qed.
 
+(** A...B: the linked adapter is built from the two parsed parts (which parts are required: C18_linked_required) *)
+Theorem C18_linked_meaning : forall a1 a2 t base rw aw nm f b, wf_sast a1 -> wf_sast a2 ->
+  no_sub3 (show_sast a1 ++ [46; 46]) = true ->
+  spec_meaning a1 TFront = Ok f -> spec_meaning a2 TBack = Ok b ->
+  make_adapter (show_sast a1 ++ dots ++ show_sast a2) t base rw aw nm = build_linked f b nm t base rw aw.
+Proof. exact make_adapter_linked_meaning. Qed.
+Print Assumptions C18_linked_meaning.
+
 (** the documented table read off the printed string: option letter x marker -> the parsed restriction; a marker on the wrong
     side for the option is refused, -b takes none *)
 Theorem C18_printed_table : forall name m core t, wf_sast (mkA name m core []) ->
